@@ -252,6 +252,22 @@ class FermionicArray(AbelianArray):
             other, fn, inplace=True, **kwargs
         )
 
+    def _do_reduction(self, fn):
+        """Need to sync phases before reducing over the block values."""
+        x = self.phase_sync() if self.phases else self
+        return super(FermionicArray, x)._do_reduction(fn)
+
+    def _do_unary_op(self, fn, inplace=False):
+        """Need to sync phases before applying (non-linear) functions."""
+        x = self if inplace else self.copy()
+        x.phase_sync(inplace=True)
+        return super(FermionicArray, x)._do_unary_op(fn, inplace=True)
+
+    def clip(self, a_min, a_max):
+        """Clip the values in the array, with lazy phases multiplied in."""
+        x = self.phase_sync() if self.phases else self
+        return super(FermionicArray, x).clip(a_min, a_max)
+
     def _map_blocks(self, fn_block=None, fn_sector=None):
         super()._map_blocks(fn_block, fn_sector)
         if fn_sector is not None:
